@@ -551,6 +551,21 @@ class Discharger:
                         if 'ParameterDoesntMatch' in repr(e.data.get('value')) and any(
                                 a[0] == 'eq' and a[2] == ('lit', 'JOIN') for a in atoms(e.pc)):
                             ok = True
+        if not ok:
+            # the same guarantee read off the returned value (no `return` statement: `match keys { Some(k) if k.len() != n => Err(..), _ => Ok(JOIN{..}) }`)
+            from analysis.sym import payload as _payload
+            leaves = [(c_, l_) for c_, l_ in term_cases(getattr(wp, 'retval', None) or ('none',))
+                      if isinstance(l_, tuple) and l_[:1] == ('ok',) and isinstance(l_[1], tuple) and l_[1][:1] == ('adt',) and l_[1][2] == 'JOIN']
+            good = bool(leaves)
+            for c_, l_ in leaves:
+                fl = dict(l_[1][3])
+                for kc, kv in term_cases(fl.get('keys', ('none',))):
+                    if kv == ('none',) or sat(And(c_, kc)) is None:
+                        continue
+                    kl, cl = ('len', _payload(kv)), ('len', fl.get('channels'))
+                    if not (entails(And(c_, kc), Atom(('eq', kl, cl)))[0] or entails(And(c_, kc), Atom(('eq', cl, kl)))[0]):
+                        good = False
+            ok = good
         self._joinkeys = ok
         return ok
 
